@@ -469,6 +469,31 @@ pub fn step(st: &mut DualState, t: &[&str]) -> Option<String> {
             },
             "refused",
         ),
+        ["evalgrad2", expr @ ..] => guarded(
+            || match eval_expr(st, expr, 0) {
+                Some((Number::Dual2(d), rest)) if rest.is_empty() => {
+                    let mut names: Vec<String> = d.vars().iter().cloned().collect();
+                    names.sort();
+                    let g1 = d.gradient1(names.clone());
+                    let g2 = d.gradient2(names.clone());
+                    let down = Dual::from(&d);
+                    let mut s = format!("E2 {} n{}", hf(d.real()), names.len());
+                    for x in g1.iter() {
+                        s.push_str(&format!(" {}", hf(*x)));
+                    }
+                    s.push_str(" |");
+                    for x in g2.iter() {
+                        s.push_str(&format!(" {}", hf(*x)));
+                    }
+                    s.push_str(" | ");
+                    s.push_str(&fmt_dual(&down));
+                    s
+                }
+                Some((v, rest)) if rest.is_empty() => format!("E2 {}", fmt_num(&v)),
+                _ => "bad-op".to_string(),
+            },
+            "refused",
+        ),
         ["grad1", i, names @ ..] => {
             let a = st.vals.get(&i.parse().ok()?)?;
             let names: Vec<String> = names.iter().map(|s| s.to_string()).collect();
@@ -739,64 +764,70 @@ pub fn gen_c03<W: Write>(out: &mut W, thorough: bool, seed: u64) {
             }
         }
     }
-    // equality between numbers that are equal by name: b = a re-laid-out with extra zero variables
+    // equality between numbers that are equal by name: a and b are two layouts of the same number,
+    // each with its own extra zero-derivative variables (so that every relationship - equal lists,
+    // superset, subset, and lists of which neither contains the other - occurs with equal numbers)
     let n_eq = if thorough { 20000 } else { 2000 };
     for _ in 0..n_eq {
-        let la = r.pick(&lists).clone();
-        let mut lb: Vec<&str> = la.clone();
-        r.shuffle(&mut lb);
-        let extra: Vec<&str> = POOL.iter().filter(|v| !la.contains(v) && r.chance(1, 2)).cloned().collect();
+        let base = r.pick(&lists).clone();
+        let k = base.len();
         let real = r.dyadic();
-        let coefs: Vec<f64> = la.iter().map(|_| if r.chance(1, 5) { 0.0 } else { r.dyadic() }).collect();
+        let coefs: Vec<f64> = base.iter().map(|_| if r.chance(1, 5) { 0.0 } else { r.dyadic() }).collect();
+        let hess: Vec<f64> = (0..k * k).map(|_| r.dyadic()).collect();
+        let hsym = |i: usize, j: usize| hess[i.min(j) * k + i.max(j)];
+        let mut layouts: Vec<Vec<&str>> = Vec::new();
+        for _ in 0..2 {
+            let mut l: Vec<&str> = base.clone();
+            for v in POOL.iter() {
+                if !base.contains(v) && r.chance(1, 2) {
+                    l.push(v);
+                }
+            }
+            r.shuffle(&mut l);
+            layouts.push(l);
+        }
         let perturb = r.chance(1, 3);
-        let which = r.below((lb.len() + 1) as u64) as usize;
+        let which = r.below((layouts[1].len() + 1) as u64) as usize;
+        let hperturb = r.chance(1, 2);
         for kind in 0..2 {
             let (a, b) = (id, id + 1);
             id += 2;
-            let k = la.len();
-            let hess: Vec<f64> = (0..k * k).map(|_| r.dyadic()).collect();
-            let hsym = |i: usize, j: usize| hess[i.min(j) * k + i.max(j)];
             let tag = if kind == 0 { "dual" } else { "dual2" };
-            write!(out, "{} {} {} {}", tag, a, hf(real), k).unwrap();
-            for (n, c) in la.iter().zip(&coefs) {
-                write!(out, " {} {}", n, hf(*c)).unwrap();
-            }
-            if kind == 1 {
-                for i in 0..k {
-                    for j in 0..k {
-                        write!(out, " {}", hf(hsym(i, j))).unwrap();
+            for (side, full) in layouts.iter().enumerate() {
+                write!(out, "{} {} {} {}", tag, if side == 0 { a } else { b }, hf(real), full.len()).unwrap();
+                for (pos, n) in full.iter().enumerate() {
+                    let mut c = match base.iter().position(|x| x == n) {
+                        Some(i) => coefs[i],
+                        None => 0.0,
+                    };
+                    if side == 1 && perturb && !(kind == 1 && hperturb) && pos == which {
+                        c += 1.0;
+                    }
+                    write!(out, " {} {}", n, hf(c)).unwrap();
+                }
+                if kind == 1 {
+                    for (pi, n) in full.iter().enumerate() {
+                        for (pj, m) in full.iter().enumerate() {
+                            let mut v = match (base.iter().position(|x| x == n), base.iter().position(|x| x == m)) {
+                                (Some(i), Some(j)) => hsym(i, j),
+                                _ => 0.0,
+                            };
+                            // perturb one symmetric pair of the Hessian only
+                            if side == 1 && perturb && hperturb && !full.is_empty() {
+                                let w = which % full.len();
+                                if (pi == w && pj == 0) || (pi == 0 && pj == w) {
+                                    v += 0.5;
+                                }
+                            }
+                            write!(out, " {}", hf(v)).unwrap();
+                        }
                     }
                 }
+                writeln!(out, " 0").unwrap();
             }
-            writeln!(out, " 0").unwrap();
-            let mut full: Vec<&str> = lb.clone();
-            full.extend(extra.iter());
-            let kb = full.len();
-            write!(out, "{} {} {} {}", tag, b, hf(real), kb).unwrap();
-            for (pos, n) in full.iter().enumerate() {
-                let mut c = match la.iter().position(|x| x == n) {
-                    Some(i) => coefs[i],
-                    None => 0.0,
-                };
-                if perturb && pos == which {
-                    c += 1.0;
-                }
-                write!(out, " {} {}", n, hf(c)).unwrap();
-            }
-            if kind == 1 {
-                for n in &full {
-                    for m in &full {
-                        let v = match (la.iter().position(|x| x == n), la.iter().position(|x| x == m)) {
-                            (Some(i), Some(j)) => hsym(i, j),
-                            _ => 0.0,
-                        };
-                        write!(out, " {}", hf(v)).unwrap();
-                    }
-                }
-            }
-            writeln!(out, " 0").unwrap();
             writeln!(out, "cmp eq {} {}", a, b).unwrap();
             writeln!(out, "cmp eq {} {}", b, a).unwrap();
+            writeln!(out, "cmp ne {} {}", a, b).unwrap();
             writeln!(out, "bin sub {} {}", a, b).unwrap();
             writeln!(out, "reset").unwrap();
         }
@@ -973,4 +1004,192 @@ pub fn gen_c19<W: Write>(out: &mut W, thorough: bool, seed: u64) {
         writeln!(out, "sum n {}", ids.join(" ")).unwrap();
         writeln!(out, "reset").unwrap();
     }
+}
+
+// ------------------------------------------------------------------------------------------
+// C01 / C02: random formulas inside their differentiable domain
+
+const POOL6: [&str; 6] = ["x", "y", "z", "u", "v", "w"];
+
+struct Leaf {
+    tok: String,
+    val: f64,
+}
+
+/// returns (prefix tokens, value of the plain f64 evaluation)
+fn gen_tree(r: &mut Rng, depth: usize, leaves: &[Leaf]) -> (String, f64) {
+    if depth == 0 || r.chance(1, 6) {
+        if r.chance(1, 6) {
+            let c = if r.chance(1, 2) { r.dyadic() } else { r.logu(1e-2, 1e2) * if r.chance(1, 2) { -1.0 } else { 1.0 } };
+            let c = if c == 0.0 { 1.5 } else { c };
+            return (format!("K{}", hf(c)), c);
+        }
+        let l = r.pick(leaves);
+        return (l.tok.clone(), l.val);
+    }
+    let rescale = |s: String, v: f64| -> (String, f64) {
+        if v != 0.0 && (v.abs() > 1e4 || v.abs() < 1e-4) {
+            let c = 1.0 / v.abs();
+            // a power of two keeps the scaling exact
+            let c = (2f64).powi(c.log2().round() as i32);
+            (format!("* K{} {}", hf(c), s), c * v)
+        } else {
+            (s, v)
+        }
+    };
+    match r.below(14) {
+        0 | 1 => {
+            let (a, va) = gen_tree(r, depth - 1, leaves);
+            let (b, vb) = gen_tree(r, depth - 1, leaves);
+            rescale(format!("+ {} {}", a, b), va + vb)
+        }
+        2 => {
+            let (a, va) = gen_tree(r, depth - 1, leaves);
+            let (b, vb) = gen_tree(r, depth - 1, leaves);
+            rescale(format!("- {} {}", a, b), va - vb)
+        }
+        3 | 4 | 5 => {
+            let (a, va) = gen_tree(r, depth - 1, leaves);
+            let (b, vb) = gen_tree(r, depth - 1, leaves);
+            rescale(format!("* {} {}", a, b), va * vb)
+        }
+        6 | 7 => {
+            let (a, va) = gen_tree(r, depth - 1, leaves);
+            let (b, vb) = gen_tree(r, depth - 1, leaves);
+            if vb.abs() >= 1e-2 {
+                rescale(format!("/ {} {}", a, b), va / vb)
+            } else {
+                rescale(format!("+ {} {}", a, b), va + vb)
+            }
+        }
+        8 => {
+            let (a, va) = gen_tree(r, depth - 1, leaves);
+            let t = if r.chance(1, 2) { "n" } else { "N" };
+            (format!("{} {}", t, a), -va)
+        }
+        9 => {
+            let (a, va) = gen_tree(r, depth - 1, leaves);
+            let p = if va > 1e-3 {
+                *r.pick(&[2.0, 3.0, -1.0, -2.0, 0.5, 1.5, -0.5, 1.0])
+            } else if va.abs() >= 1e-2 {
+                *r.pick(&[2.0, 3.0, -1.0, -2.0, 1.0])
+            } else {
+                *r.pick(&[2.0, 3.0, 1.0])
+            };
+            rescale(format!("p{} {}", hf(p), a), va.powf(p))
+        }
+        10 => {
+            let (a, va) = gen_tree(r, depth - 1, leaves);
+            if va.abs() < 5.0 {
+                rescale(format!("e {}", a), va.exp())
+            } else {
+                (format!("c {}", a), 0.5)
+            }
+        }
+        11 => {
+            let (a, va) = gen_tree(r, depth - 1, leaves);
+            if va > 1e-3 {
+                rescale(format!("l {}", a), va.ln())
+            } else {
+                let c = va.abs() + 1.0;
+                rescale(format!("l + K{} {}", hf(c), a), (va + c).ln())
+            }
+        }
+        12 => {
+            let (a, va) = gen_tree(r, depth - 1, leaves);
+            if va.abs() < 3.0 && r.chance(1, 2) {
+                // nicdf(ncdf(x)) = x up to rounding; evaluate by the identity for bookkeeping only
+                (format!("q c {}", a), va)
+            } else if va.abs() < 6.0 {
+                // the value only steers later domain choices; a crude Φ is enough for that
+                (format!("c {}", a), 0.5 * (1.0 + (va / (1.0 + va * va).sqrt())))
+            } else {
+                (format!("N {}", a), -va)
+            }
+        }
+        _ => {
+            let (a, va) = gen_tree(r, depth - 1, leaves);
+            if va.abs() > 1e-3 {
+                (format!("a {}", a), va.abs())
+            } else {
+                (format!("n {}", a), -va)
+            }
+        }
+    }
+}
+
+fn gen_formulas<W: Write>(out: &mut W, thorough: bool, seed: u64, second: bool) {
+    let mut r = Rng::new(seed ^ if second { 0xC02 } else { 0xC01 });
+    let n = if second {
+        if thorough { 100000 } else { 2000 }
+    } else if thorough {
+        200000
+    } else {
+        3000
+    };
+    for _ in 0..n {
+        let n_leaves = r.range(1, 5) as usize;
+        let mut leaves = Vec::new();
+        let mut shared: Option<Vec<&str>> = None;
+        for i in 0..n_leaves {
+            let id = i + 1;
+            let val = r.logu(1e-2, 1e2) * if r.chance(1, 3) { -1.0 } else { 1.0 };
+            if r.chance(1, 7) {
+                writeln!(out, "flt {} {}", id, hf(val)).unwrap();
+            } else {
+                // some leaves share one variable list (and its storage)
+                let use_shared = shared.is_some() && r.chance(1, 3);
+                let names: Vec<&str> = if use_shared {
+                    shared.clone().unwrap()
+                } else {
+                    let k = r.range(0, 4) as usize;
+                    let mut p: Vec<&str> = POOL6.to_vec();
+                    r.shuffle(&mut p);
+                    p.truncate(k);
+                    p
+                };
+                if shared.is_none() && r.chance(1, 2) {
+                    shared = Some(names.clone());
+                }
+                let grp = if use_shared || Some(&names) == shared.as_ref() { 9 } else { 0 };
+                let tag = if second { "dual2" } else { "dual" };
+                write!(out, "{} {} {} {}", tag, id, hf(val), names.len()).unwrap();
+                for nm in &names {
+                    let c = ((r.unit() * 4.0 - 2.0) * 64.0).round() / 64.0;
+                    write!(out, " {} {}", nm, hf(c)).unwrap();
+                }
+                if second {
+                    let k = names.len();
+                    let mut h = vec![0.0; k * k];
+                    for a in 0..k {
+                        for b in a..k {
+                            let v = ((r.unit() * 2.0 - 1.0) * 64.0).round() / 64.0;
+                            h[a * k + b] = v;
+                            h[b * k + a] = v;
+                        }
+                    }
+                    for v in h {
+                        write!(out, " {}", hf(v)).unwrap();
+                    }
+                }
+                writeln!(out, " {}", grp).unwrap();
+            }
+            leaves.push(Leaf { tok: format!("L{}", id), val });
+        }
+        let depth = r.range(1, 6) as usize;
+        let (expr, _) = gen_tree(&mut r, depth, &leaves);
+        writeln!(out, "eval {}", expr).unwrap();
+        if second {
+            writeln!(out, "evalgrad2 {}", expr).unwrap();
+        }
+        writeln!(out, "reset").unwrap();
+    }
+}
+
+pub fn gen_c01<W: Write>(out: &mut W, thorough: bool, seed: u64) {
+    gen_formulas(out, thorough, seed, false)
+}
+
+pub fn gen_c02<W: Write>(out: &mut W, thorough: bool, seed: u64) {
+    gen_formulas(out, thorough, seed, true)
 }
